@@ -224,12 +224,12 @@ func (sv stringValue) Contains(substr Value) bool {
 	if !ok {
 		s = fmt.Sprint(substr.Interface())
 	}
-	return strings.Contains(sv.value.(string), s)
+	return strings.Contains(reflect.ValueOf(sv.value).String(), s)
 }
 
 func (sv stringValue) PropertyValue(iv Value) Value {
 	if iv.Interface() == sizeKey {
-		return ValueOf(len(sv.value.(string)))
+		return ValueOf(reflect.ValueOf(sv.value).Len())
 	}
 	return nilValue
 }
